@@ -7,7 +7,7 @@ TABLES = ["reim_fft", "reim_ifft", "cplx_fft", "cplx_ifft", "reim_to_znx64", "re
 
 
 def _jobs(tier):
-    mult = 1 if tier == "quick" else 20
+    mult = 1 if tier == "quick" else 200
     jobs = []
     for k in range(1, 15):
         jobs.append(dict(sub="vec", count=geo(k, 3000, 7, 30) * mult, fix=dict(k=k)))
